@@ -33,6 +33,7 @@ import (
 	"sort"
 	"strconv"
 	"strings"
+	"sync"
 	"testing/fstest"
 	"time"
 
@@ -110,6 +111,7 @@ type history struct {
 	Bad      []int         `json:"bad,omitempty"`   // nodes with a manifest media type whose bytes are no JSON
 	Holey    int           `json:"holey,omitempty"` // node with a long run of zeros (0 = none; node 0 is never it)
 	Ops      []string      `json:"ops"`
+	caseOps  []string      // as Ops, concurrent batches completed by their results and the live observation
 	Meta     string        `json:"meta,omitempty"`
 }
 
@@ -438,6 +440,29 @@ func validateLayout(dir string, ignore map[string]bool) (bool, [][2]string) {
 	return all, bad
 }
 
+// indexEntries renders the manifests of index.json as a sorted list of "node.extra.refname"
+// (what else a digest-only entry carries depends on map iteration orders in GC: printed as *).
+func (r *runner) indexEntries() string {
+	data, err := os.ReadFile(filepath.Join(r.dir, "index.json"))
+	if err != nil {
+		return "!read"
+	}
+	var idx ocispec.Index
+	if err := json.Unmarshal(data, &idx); err != nil {
+		return "!parse"
+	}
+	var es []string
+	for _, m := range idx.Manifests {
+		kx, ann := r.w.classify(m)
+		if ann == "-" {
+			kx = strings.SplitN(kx, ".", 2)[0] + ".*"
+		}
+		es = append(es, kx+"."+ann)
+	}
+	sort.Strings(es)
+	return strings.Join(es, ",")
+}
+
 // ---------- tar of a layout directory ----------
 
 // writeTar archives the layout directory in one of several styles a tar of an image layout
@@ -478,13 +503,16 @@ func writeTarTool(dir, out string, style int) error {
 		// bsdtar finds holes with lseek: archive a copy whose zero runs are real holes
 		src = out + ".copy"
 		os.RemoveAll(src)
-		if o, err := exec.Command("cp", "-a", "--sparse=always", dir, src).CombinedOutput(); err != nil {
+		if o, err := exec.CommandContext(ctx, "cp", "-a", "--sparse=always", dir, src).CombinedOutput(); err != nil {
 			return fmt.Errorf("cp --sparse: %v %s", err, o)
 		}
 		defer os.RemoveAll(src)
 	}
 	args := append(append([]string{}, a[1:]...), "-cf", out, "-C", src, "--exclude=./ingest", ".")
-	cmd := exec.Command(a[0], args...)
+	// a wedged tool must not wedge the check: killed after two minutes (the run then fails)
+	tctx, cancel := context.WithTimeout(ctx, 2*time.Minute)
+	defer cancel()
+	cmd := exec.CommandContext(tctx, a[0], args...)
 	cmd.Env = append(os.Environ(), "LC_ALL=C")
 	if o, err := cmd.CombinedOutput(); err != nil {
 		return fmt.Errorf("%s %v: %v %s", a[0], args, err, o)
@@ -595,9 +623,13 @@ type runner struct {
 	// a descriptor that does not describe the stored content was passed (outside the property)
 	unjudged bool
 	autogc   bool // current value of Store.AutoGC
+	mu       sync.Mutex
 }
 
-const gcWatchdog = 300 * time.Second
+const gcWatchdog = 15 * time.Second
+
+// every single operation and check point (they take milliseconds)
+const opWatchdog = 20 * time.Second
 
 // confirmHang drives a fresh store through the history so far (check points left out);
 // true if its last operation (the GC) times out again.
@@ -613,7 +645,11 @@ func (r *runner) confirmHang() bool {
 			continue
 		}
 		c.h.Ops = append(c.h.Ops, op)
-		c.exec(op)
+		if op[0] == '&' {
+			c.batch(op)
+		} else {
+			c.execWatched(op)
+		}
 		if c.hung {
 			return true
 		}
@@ -626,7 +662,40 @@ type strayFile struct {
 	path string
 }
 
+// execWatched runs one operation under a watchdog: no operation of the store may wedge the
+// check.  A timeout is reported when a fresh store driven through the same history wedges again.
+func (r *runner) execWatched(op string) string {
+	done := make(chan string, 1)
+	go func() { done <- r.exec(op) }()
+	select {
+	case res := <-done:
+		return res
+	case <-time.After(opWatchdog):
+		r.hung = true
+		if !r.confirming && r.confirmHang() {
+			r.fail("op-wedge", fmt.Sprintf("operation %s did not return within %v, twice (fresh store, same history)", op, opWatchdog))
+		} else if !r.confirming {
+			run.Count("op-watchdog-fired-not-confirmed(case dropped)")
+			r.dropped = true
+		}
+		return "hang"
+	}
+}
+
+func (r *runner) setSynced(v bool) {
+	r.mu.Lock()
+	r.synced = v
+	r.mu.Unlock()
+}
+
+// a confirmed wedge of the store ends the run (every later history would wedge the same way);
+// the failure and its replay are recorded
+var wedges int
+
 func (r *runner) fail(sig, msg string) {
+	if sig == "gc-hang" || strings.HasSuffix(sig, "-wedge") {
+		wedges++
+	}
 	if r.unjudged && sig != "gc-hang" {
 		return
 	}
@@ -683,7 +752,7 @@ func (r *runner) exec(op string) string {
 			res = "badcontent" // content.Successors cannot decode the manifest
 		}
 		if !r.h.AutoSave && res == "ok" && n.IsManifest() {
-			r.synced = false
+			r.setSynced(false)
 		}
 		return res
 	case 'T':
@@ -716,7 +785,7 @@ func (r *runner) exec(op string) string {
 		}
 		res := errTok(r.store.Tag(ctx, d, ref))
 		if !r.h.AutoSave && res == "ok" {
-			r.synced = false
+			r.setSynced(false)
 		}
 		return res
 	case 'U', 'V':
@@ -729,14 +798,14 @@ func (r *runner) exec(op string) string {
 		}
 		res := errTok(r.store.Untag(ctx, ref))
 		if !r.h.AutoSave && res == "ok" {
-			r.synced = false
+			r.setSynced(false)
 		}
 		return res
 	case 'D':
 		k, _ := strconv.Atoi(arg)
 		res := errTok(r.store.Delete(ctx, g.Nodes[k].Desc))
 		if !r.h.AutoSave {
-			r.synced = false
+			r.setSynced(false)
 		}
 		return res
 	case 'G':
@@ -746,7 +815,7 @@ func (r *runner) exec(op string) string {
 		select {
 		case err := <-done:
 			if !r.h.AutoSave {
-				r.synced = false
+				r.setSynced(false)
 			}
 			return errTok(err)
 		case <-time.After(gcWatchdog):
@@ -765,7 +834,7 @@ func (r *runner) exec(op string) string {
 	case 'S':
 		res := errTok(r.store.SaveIndex())
 		if res == "ok" {
-			r.synced = true
+			r.setSynced(true)
 		}
 		return res
 	case 'R':
@@ -796,7 +865,7 @@ func (r *runner) exec(op string) string {
 			d.MediaType = "application/octet-stream"
 		}
 		r.unjudged = true
-		r.synced = false
+		r.setSynced(false)
 		return errTok(r.store.Tag(ctx, d, tagPool[t]))
 	case 'I': // node bytes written as a blob file behind the store's back
 		k, _ := strconv.Atoi(arg)
@@ -968,7 +1037,7 @@ func (r *runner) checkpoint() string {
 	if all {
 		v = "v1"
 	}
-	return "C[" + strings.Join(parts, "|") + "|" + v + "|x:" + strings.Join(xs, ",") + "]"
+	return "C[" + strings.Join(parts, "|") + "|" + v + "|x:" + strings.Join(xs, ",") + "|i:" + r.indexEntries() + "]"
 }
 
 // ---------- generator ----------
@@ -1032,7 +1101,12 @@ func (r *runner) gcOffenders() []int {
 
 func (r *runner) do(op string) {
 	r.h.Ops = append(r.h.Ops, op) // before exec: a replay written by the oracle includes the failing check point
-	res := r.exec(op)
+	if op[0] == '&' {
+		r.batch(op)
+		return
+	}
+	res := r.execWatched(op)
+	r.h.caseOps = append(r.h.caseOps, op)
 	r.out = append(r.out, res)
 	if op[0] == 'W' || op[0] == 'M' {
 		run.Count("unjudged:tag-with-inconsistent-descriptor(" + op[:1] + ")")
@@ -1191,6 +1265,96 @@ func (r *runner) generate(rnd *common.Rand, nops int) {
 			if len(ls) > 0 {
 				r.do(fmt.Sprintf("I%d", common.Pick(rnd, ls)))
 			}
+		case c >= 94 && c < 98: // a batch of concurrent operations, then a check point
+			var ops []string
+			name := func() int { return rnd.Intn(len(tagPool)) }
+			switch rnd.Intn(3) {
+			case 0: // several index-saving operations at once
+				for n := 3 + rnd.Intn(3); len(ops) < n; {
+					k := common.Pick(rnd, real)
+					if p, ok := pickPresent(); ok && rnd.Chance(9, 10) {
+						k = p
+					}
+					switch rnd.Intn(6) {
+					case 0:
+						ops = append(ops, fmt.Sprintf("U%d", name()))
+					case 1:
+						ops = append(ops, fmt.Sprintf("P%d", common.Pick(rnd, real)))
+					case 2:
+						ops = append(ops, "S")
+					default:
+						ops = append(ops, fmt.Sprintf("T%d:%d:-:%d", k, rnd.Intn(3), name()))
+					}
+				}
+			case 1: // references to content that is deleted / collected at the same time
+				k := common.Pick(rnd, real)
+				if p, ok := pickPresent(); ok {
+					k = p
+				}
+				ops = append(ops, fmt.Sprintf("T%d:0:-:%d", k, name()))
+				if rnd.Chance(1, 4) {
+					ops = append(ops, "G")
+				} else {
+					ops = append(ops, fmt.Sprintf("D%d", k))
+				}
+				for rnd.Chance(1, 2) && len(ops) < 5 {
+					ops = append(ops, common.Pick(rnd, []string{fmt.Sprintf("T%d:1:-:%d", k, name()), fmt.Sprintf("P%d", k), fmt.Sprintf("U%d", name()), "S"}))
+				}
+			default: // anything
+				for n := 2 + rnd.Intn(4); len(ops) < n; {
+					k := common.Pick(rnd, real)
+					if p, ok := pickPresent(); ok && rnd.Chance(3, 4) {
+						k = p
+					}
+					ops = append(ops, common.Pick(rnd, []string{fmt.Sprintf("T%d:%d:-:%d", k, rnd.Intn(3), name()), fmt.Sprintf("T%d:0:-:d", k),
+						fmt.Sprintf("U%d", name()), fmt.Sprintf("P%d", k), fmt.Sprintf("Q%d:1:-", k), fmt.Sprintf("D%d", k), "S", "G"}))
+				}
+			}
+			// two concurrent Push of the same content both succeed (each renames its ingest file
+			// into place; Store.Push has no "already exists" for a race it cannot see): C06's
+			// business, kept out of the batches
+			pushed := map[string]bool{}
+			var uniq []string
+			for _, op := range ops {
+				if op[0] == 'P' || op[0] == 'Q' {
+					k := strings.SplitN(op[1:], ":", 2)[0]
+					if pushed[k] {
+						continue
+					}
+					pushed[k] = true
+				}
+				uniq = append(uniq, op)
+			}
+			ops = uniq
+			if !r.h.AutoSave {
+				// Store.tag registers the digest reference and the tag in two steps; a concurrent
+				// SaveIndex may write the state in between.  With AutoSaveIndex the Tag's own save
+				// follows; without it index.json is not claimed current anyway, but the batch would
+				// not be a sequence of whole operations: no SaveIndex next to Tag in these batches
+				hasTag := false
+				for _, op := range ops {
+					if op[0] == 'T' {
+						hasTag = true
+					}
+				}
+				if hasTag {
+					var keep []string
+					for _, op := range ops {
+						if op != "S" {
+							keep = append(keep, op)
+						}
+					}
+					ops = keep
+				}
+			}
+			if len(ops) < 2 {
+				ops = append(ops, "S")
+			}
+			common.Shuffle(rnd, ops)
+			r.do("&" + strings.Join(ops, "|"))
+			if !r.hung {
+				r.do("C")
+			}
 		case c < 94: // stray file under blobs/
 			r.do(fmt.Sprintf("X%s%d", common.Pick(rnd, []string{"v", "v", "i", "a", "f"}), len(r.strays)))
 		default:
@@ -1263,7 +1427,11 @@ func caseLine(h *history, g *dag.Graph) string {
 		}
 		fmt.Fprintf(&b, " %s:%s:%s", fl, su, sb)
 	}
-	for _, op := range h.Ops {
+	ops := h.Ops
+	if len(h.caseOps) == len(h.Ops) {
+		ops = h.caseOps
+	}
+	for _, op := range ops {
 		b.WriteString(" " + op)
 	}
 	return b.String()
@@ -1438,6 +1606,8 @@ var coverageFloor = []string{
 	"op:Xv", "op:Xi", "op:Xa", "op:Xf", "tag:foreign-digest-reference", "tag:invalid-utf8-reference",
 	"gc:with-untagged-subject-chains", "delete:autogc-with-stored-referrer",
 	"tarfs:format0", "tarfs:format1", "tarfs:format2", "unjudged:tag-with-inconsistent-descriptor",
+	"batch:size2", "batch:size3", "batch:size4", "batch:size5", "batch-op:T:ok", "batch-op:D:ok", "batch-op:G:ok", "batch-op:S:ok",
+	"batch-op:P:ok", "batch-op:U:ok",
 }
 
 func main() {
@@ -1448,9 +1618,12 @@ func main() {
 		replay(run.Replay)
 		return
 	}
-	n := run.Scale(1200, 8000)
-	for i := 0; i < n; i++ {
+	n := run.Scale(1000, 8000)
+	for i := 0; i < n && wedges == 0; i++ {
 		generateHistory(run.Seed, i, run.Thorough())
+	}
+	if wedges > 0 {
+		return
 	}
 	// internal/fs/tarfs on its own (Model/TarFS.v)
 	trnd := common.NewRand(common.NewRand(run.Seed).U64() ^ 0x7a7f5)
